@@ -60,6 +60,8 @@ MODELS = {
     "H04GGK": ("codon", "tuple", "state", ["G", "G.K", "kappa", "omega"]),
     "MG94HKY:gc2": ("codon:2", "monomer", "nuc", ["kappa", "omega"]),      # vertebrate mitochondrial code
     "GY94:gc2": ("codon:2", "tuple", "state", ["kappa", "omega"]),
+    "GY94:gc4": ("codon:4", "tuple", "state", ["kappa", "omega"]),
+    "GY94:gc15": ("codon:15", "tuple", "state", ["kappa", "omega"]),
     "JTT92": ("protein", "tuple", "state", []),
     "DSO78": ("protein", "tuple", "state", []),
     "WG01": ("protein", "tuple", "state", []),
@@ -143,8 +145,8 @@ def make_model(case):
                                                 mprob_model="tuple", name=name, **kw)
         return SM.TimeReversibleDinucleotide(predicates=[kappa, cpg], recode_gaps=True, model_gaps=False,
                                              mprob_model=kind, name=name, **kw)
-    if name.endswith(":gc2"):
-        return get_model(name.split(":")[0], gc=2, **kw)
+    if ":gc" in name:
+        return get_model(name.split(":")[0], gc=int(name.split(":gc")[1]), **kw)
     return get_model(name, **kw)
 
 
@@ -324,8 +326,13 @@ def build_lf(case):
     from cogent3 import make_aligned_seqs, make_tree
     fam = MODELS[case["model"]][0]
     tree = make_tree(case["tree"])
-    for other in case.get("after", []):        # models built earlier in the same process (another genetic code, another family):
-        make_model({"model": other})          # nothing they leave behind may change the model of this case
+    for other in case.get("after", []):        # models built AND used earlier in the same process (another genetic code, another
+        om = make_model({"model": other})     # family): nothing they leave behind may change the model of this case
+        if MODELS[other][0].startswith("codon"):
+            tips = [n.name for n in tree.tips()]
+            olf = om.make_likelihood_function(tree)
+            olf.set_alignment(make_aligned_seqs({t: "ATGTGTTGCTTTCCC"[3 * (i % 2):] + "ATG" * (i % 2) for i, t in enumerate(tips)}, moltype="dna"))
+            float(olf.lnL)
     model = make_model(case)
     lf = model.make_likelihood_function(tree, **(case.get("lfkw") or {}))
     rows = alignment_rows(case)
@@ -1087,10 +1094,16 @@ def gen_codon(tier, seed):
                         case["updates"] = [[["omega", {}, 0.9], ["length", {"edge": edges[0]}, 0.5]]]
                     yield case
     # a codon model of one genetic code built after a model of another code in the same process (and the other way round)
-    for model, after in (("GY94:gc2", ["GY94"]), ("GY94", ["GY94:gc2"]), ("MG94HKY:gc2", ["MG94HKY", "Y98"]), ("Y98", ["MG94HKY:gc2"])):
+    for model, after in (("GY94:gc2", ["GY94"]), ("GY94", ["GY94:gc2"]), ("MG94HKY:gc2", ["MG94HKY", "Y98"]), ("Y98", ["MG94HKY:gc2"]),
+                         # two codes with the same NUMBER of sense codons (62) but different sets
+                         ("GY94:gc15", ["GY94:gc4"]), ("GY94:gc4", ["GY94:gc15"])):
         names = MODELS[model][3]
         states = S.states_of(MODELS[model][0])
         words = CODON_WORDS_GC2 if model.endswith(":gc2") else CODON_WORDS
+        if model.endswith(":gc4"):
+            words = CODON_WORDS + ["TGA", "TGT", "TGC", "TTT"]
+        elif model.endswith(":gc15"):
+            words = CODON_WORDS + ["TAG", "TGT", "TGC", "TTT"]
         for salt in range(2 if thorough else 1):
             pi = PI_NUC[1 + salt % 2] if MODELS[model][2] == "nuc" else _pseudo_probs(states, salt + 3)
             params = {p: [2.9, 0.6, 1.4][(n + salt) % 3] for n, p in enumerate(names)}
